@@ -244,6 +244,8 @@ def parse_tla_value(s):
                 e += 1
             r = s[pos + 1:e]
             pos = e + 1
+            if "\\" in r:
+                r = r.replace("\\t", "\t").replace("\\n", "\n").replace('\\"', '"').replace("\\\\", "\\")
             return r
         m = re.compile(r"-?\d+").match(s, pos)
         if m:
@@ -282,6 +284,7 @@ def parse_sim_file(path):
             vars_[k.strip()] = parse_tla_value(v.strip())
         steps.append((cur, vars_))
 
+    pending_hdr = None
     with open(path) as f:
         for line in f:
             line = line.rstrip("\n")
@@ -290,9 +293,19 @@ def parse_sim_file(path):
                 flush()
                 cur = m.group(2)
                 buf = []
-            elif line.startswith("====") or line.startswith("----") or line.startswith("EXTENDS") or not line.strip():
                 continue
-            elif cur is not None:
+            mc = re.match(r"^\\\* <(.*)>\s*$", line)
+            if mc:
+                pending_hdr = mc.group(1)
+                continue
+            if re.match(r"^STATE_\d+ ==\s*$", line):
+                flush()
+                cur = pending_hdr or "?"
+                buf = []
+                continue
+            if line.startswith("====") or line.startswith("----") or line.startswith("EXTENDS") or not line.strip():
+                continue
+            if cur is not None:
                 buf.append(line)
     flush()
     return steps
@@ -518,14 +531,14 @@ class Result:
             os.makedirs(os.path.join(VERIF, "replays"), exist_ok=True)
             classes = {}
             for v in self.violations:
-                k = " | ".join(str(v.get(f)) for f in ("why", "mode", "transport", "origin", "op", "leg", "executor") if v.get(f) is not None)
+                k = " | ".join(str(v.get(f)) for f in ("why", "mode", "transport", "origin", "op", "leg", "executor", "mclass", "side") if v.get(f) is not None)
                 classes[k] = classes.get(k, 0) + 1
             for k, n in sorted(classes.items(), key=lambda kv: -kv[1])[:30]:
                 print("  violation class x%d: %s" % (n, k))
             # write replays for a spread of classes, not only the first ones
             bycls = {}
             for v in self.violations:
-                k = " | ".join(str(v.get(f)) for f in ("why", "mode", "transport", "origin", "op", "leg", "executor") if v.get(f) is not None)
+                k = " | ".join(str(v.get(f)) for f in ("why", "mode", "transport", "origin", "op", "leg", "executor", "mclass", "side") if v.get(f) is not None)
                 bycls.setdefault(k, []).append(v)
             spread = []
             i = 0
